@@ -18,33 +18,8 @@ Theorem gauss_chebyshev_weight_matches_node : forall n k, (1 <= n)%nat -> (k < n
 Proof. exact gc_weight_matches_node. Qed.
 Print Assumptions gauss_chebyshev_weight_matches_node.
 
-Theorem gauss_wrappers_chebyshev2 : forall (n : nat) (ox ow : nat -> R) (Iw : (R -> R) -> R),
-  (forall p, pspan (2 * n - 1) p -> rsum n (fun i => ow i * p (ox i)) = Iw p) ->
-  (forall i, (i < n)%nat -> -1 < ox i < 1) ->
-  forall p, pspan (2 * n - 1) p ->
-  rsum n (fun k => wts_GaussChebyshevType2 ox ow n k
-                   * (sqrt (1 - pts_GaussChebyshevType2 ox n k ^ 2) * p (pts_GaussChebyshevType2 ox n k))) = Iw p.
-Proof. exact gc2_wrapper_lemma. Qed.
-Print Assumptions gauss_wrappers_chebyshev2.
-
-Theorem gauss_wrappers_laguerre : forall (n : nat) (ox ow : nat -> R) (Iw : (R -> R) -> R),
-  (forall p, pspan (2 * n - 1) p -> rsum n (fun i => ow i * p (ox i)) = Iw p) ->
-  forall alpha, (forall i, (i < n)%nat -> 0 < ox i) ->
-  forall p, pspan (2 * n - 1) p ->
-  rsum n (fun k => wts_GaussLaguerre ox ow alpha n k
-                   * (Rpower (pts_GaussLaguerre ox alpha n k) alpha * exp (- pts_GaussLaguerre ox alpha n k)
-                      * p (pts_GaussLaguerre ox alpha n k))) = Iw p.
-Proof. exact laguerre_wrapper_lemma. Qed.
-Print Assumptions gauss_wrappers_laguerre.
-
-Theorem gauss_wrappers_legendre : forall n (ox ow : nat -> R),
-  (forall p, pspan (2 * n - 1) p -> is_RInt p (-1) 1 (rsum n (fun i => ow i * p (ox i)))) ->
-  forall p, pspan (2 * n - 1) p ->
-  is_RInt p (-1) 1 (rsum n (fun k => wts_GaussLegendre ox ow n k * p (pts_GaussLegendre ox n k))).
-Proof. exact legendre_exact_lemma. Qed.
-Print Assumptions gauss_wrappers_legendre.
-
-Theorem gauss_wrappers_nodes_unchanged : forall n (ox : nat -> R) k,
-  pts_GaussLegendre ox n k = ox k /\ pts_GaussChebyshevType2 ox n k = ox k /\ forall a, pts_GaussLaguerre ox a n k = ox k.
-Proof. exact oracle_nodes_same. Qed.
-Print Assumptions gauss_wrappers_nodes_unchanged.
+(* nodes ascending inside [-1,1] (they are the Fejer-1 nodes; depends on the reversal flag read from the source) *)
+Theorem shape_GaussChebyshev : forall n k, (1 <= n)%nat -> (k < n)%nat ->
+  -1 <= pts_GaussChebyshev n k <= 1 /\ ((S k < n)%nat -> pts_GaussChebyshev n k < pts_GaussChebyshev n (S k)).
+Proof. exact gc_shape. Qed.
+Print Assumptions shape_GaussChebyshev.
